@@ -545,3 +545,225 @@ Proof.
   cbn [flat_map]. rewrite flat_map_app. cbn [flat_map]. rewrite app_nil_r. fold (hexU data).
   rewrite <- !app_assoc. reflexivity.
 Qed.
+
+(* ---- termination: the fuel S (length buffer) is never exhausted, from ANY state ---- *)
+Lemma find_sub_le p l i : find_sub p l = Some i -> (i < length l)%nat.
+Proof.
+  revert i. induction l as [|x l IH]; intros i H; [discriminate|].
+  cbn [find_sub] in H. destruct (prefix_eqb p (x :: l)).
+  - injection H as <-. cbn. lia.
+  - destruct (find_sub p l) as [j|]; [|discriminate]. injection H as <-. specialize (IH j eq_refl). cbn. lia.
+Qed.
+
+Ltac shrink_fin :=
+  cbn [a_buf a_hdr a_len a_lrc a_uid]; rewrite ?skipn_length; repeat split; intros;
+  try lia; try discriminate; try (right; lia); try (left; reflexivity).
+
+Lemma check_clean_shrinks st :
+  let '(st1, ok) := check_clean st in
+  (length (a_buf st1) <= length (a_buf st))%nat /\
+  (ok = true -> 0 <= a_len (a_hdr st1)) /\
+  (ok = false -> a_len (a_hdr st1) = a_len (a_hdr st) \/ 0 <= a_len (a_hdr st1)).
+Proof.
+  unfold check_clean, try_clean.
+  destruct (find_sub [COLON] (a_buf st)) as [s|]; [|shrink_fin].
+  destruct (find_sub [CR; LF] (skipn s (a_buf st))) as [e|]; [|shrink_fin].
+  destruct (int_hex2 _); [|shrink_fin].
+  destruct (a2b_hex (pyslice (skipn s (a_buf st)) (Z.of_nat e - 2) (Z.of_nat e))) as [[|b l]|]; [shrink_fin| |shrink_fin].
+  destruct (a2b_hex _); shrink_fin.
+Qed.
+
+Lemma a_loop_fuel dec units single : forall fuel st,
+  (length (a_buf st) < fuel)%nat ->
+  forall st' ds o, a_loop base lrc ascii dec fuel units single st = (st', ds, o) -> o <> OutOfFuel.
+Proof.
+  induction fuel as [|fuel IH]; intros st Hlen st' ds o H; [lia|].
+  cbn [a_loop] in H. rewrite a_ready_eq in H.
+  destruct (Z.of_nat (length (a_buf st)) >? 1) eqn:Hr; [|injection H as <- <- <-; discriminate].
+  rewrite a_check_eq in H. pose proof (check_clean_shrinks st) as Hs.
+  destruct (check_clean st) as [st1 [|]]; destruct Hs as (Hl & Hpos & Hneg).
+  - destruct (validate_unit base units single (Some (a_uid (a_hdr st1)))) as [[|]|e].
+    + destruct (a_getframe ascii st1) as [frame|e]; [|injection H as <- <- <-; discriminate].
+      destruct (dec frame); try (injection H as <- <- <-; discriminate).
+      destruct (a_loop base lrc ascii dec fuel units single (a_advance ascii st1)) as [[s2 d2] o2] eqn:E.
+      cbn [cons_da] in H. injection H as <- <- <-.
+      eapply (IH (a_advance ascii st1)); [|exact E].
+      rewrite a_advance_eq. cbn [a_buf]. rewrite pyfrom_nn by (specialize (Hpos eq_refl); lia).
+      rewrite skipn_length. specialize (Hpos eq_refl). lia.
+    + eapply (IH (a_reset ascii st1)); [|exact H]. rewrite a_reset_eq. cbn [a_buf length]. lia.
+    + injection H as <- <- <-. discriminate.
+  - rewrite a_droptest_eq in H. destruct (a_len (a_hdr st1) =? 0) eqn:E0; cbn [negb] in H.
+    + injection H as <- <- <-. discriminate.
+    + eapply (IH (a_dropone ascii st1)); [|exact H]. rewrite a_dropone_eq. cbn [a_buf].
+      rewrite pyfrom_nn by lia. rewrite skipn_length. change (Z.to_nat 1) with 1%nat. lia.
+Qed.
+
+Theorem ascii_recv_no_fuel_out dec c st chunk st' ds o :
+  a_recv base lrc ascii dec c st chunk = (st', ds, o) -> o <> OutOfFuel.
+Proof.
+  unfold a_recv. intros H. eapply a_loop_fuel; [|exact H]. cbn [a_buf]. lia.
+Qed.
+
+(* ---- C11: from the synchronised state, every read made of whole valid frames (one or
+   several per read) is delivered completely and leaves the receiver synchronised ---- *)
+Definition a_sync (st : astate) : Prop := a_buf st = [] /\ a_hdr st = ahdr0.
+
+Theorem ascii_after_sync dec c st (vs : list frame) :
+  a_sync st -> Forall (valid_frame KAscii dec c) vs ->
+  exists st', a_recv base lrc ascii dec c st (concat (map (spec_adu KAscii) vs))
+              = (st', map (spec_delivery KAscii) vs, Done) /\ a_sync st'.
+Proof.
+  intros (Hb & Hh) Hv.
+  destruct (ascii_batch dec c st (concat (map (spec_adu KAscii) vs)) vs [] [] Hh Hv (Forall_nil _)) as (s' & E & Hb' & Hh').
+  - rewrite Hb. unfold stream. now rewrite app_nil_r.
+  - now left.
+  - trivial.
+  - trivial.
+  - exists s'. split; [exact E|]. split; assumption.
+Qed.
+
+(* the open defect: a frame with a valid LRC whose PDU the decoder rejects is never consumed *)
+Definition stuck_dec (pdu : bytes) : dres :=
+  match pdu with [3%N; 0%N; 0%N; 0%N; 1%N] => DMsg 3 | _ => DRaise StructError end.
+Definition stuck_cfg : cfg := {| c_units := [1]; c_single := Some false |}.
+Definition stuck_bad : bytes := spec_adu_ascii 1 [3%N; 0%N].
+Definition stuck_good : frame := {| f_tid := 0; f_pid := 0; f_uid := 1; f_pdu := [3%N; 0%N; 0%N; 0%N; 1%N] |}.
+
+Lemma ascii_stuck :
+  valid_frame KAscii stuck_dec stuck_cfg stuck_good /\
+  forall n, feed (a_recv base lrc ascii stuck_dec stuck_cfg) (a_init ascii)
+                 (stuck_bad :: repeat (spec_adu KAscii stuck_good) n) =
+            (fst (fst (feed (a_recv base lrc ascii stuck_dec stuck_cfg) (a_init ascii)
+                 (stuck_bad :: repeat (spec_adu KAscii stuck_good) n))), [], false).
+Proof.
+  split; [repeat split; try (vm_compute; congruence); cbn; lia|].
+  intros n.
+  (* after the bad frame the state is (bad ++ k good frames, header of the bad frame): every call raises *)
+  assert (G : forall k st, a_hdr st = {| a_lrc := Some 252; a_len := 9; a_uid := 1 |} \/ a_hdr st = ahdr0 ->
+              (exists t, a_buf st = stuck_bad ++ t) ->
+              snd (fst (feed (a_recv base lrc ascii stuck_dec stuck_cfg) st (repeat (spec_adu KAscii stuck_good) k))) = []
+              /\ snd (feed (a_recv base lrc ascii stuck_dec stuck_cfg) st (repeat (spec_adu KAscii stuck_good) k)) = (match k with O => true | _ => false end)).
+  { induction k as [|k IHk]; intros st Hh (t & Ht); [split; reflexivity|].
+    cbn [repeat feed].
+    assert (E : a_recv base lrc ascii stuck_dec stuck_cfg st (spec_adu KAscii stuck_good) =
+                ({| a_buf := stuck_bad ++ t ++ spec_adu KAscii stuck_good; a_hdr := {| a_lrc := Some 252; a_len := 9; a_uid := 1 |} |}, [], Exc StructError)).
+    { unfold a_recv. rewrite Ht. cbn [a_buf a_hdr].
+      rewrite <- app_assoc.
+      remember (t ++ spec_adu KAscii stuck_good) as t'.
+      destruct Hh as [-> | ->]; cbn [a_loop]; rewrite a_ready_eq; cbn [a_buf];
+        (replace (Z.of_nat (length (stuck_bad ++ t')) >? 1) with true by (rewrite app_length; cbn; lia));
+        rewrite a_check_eq; unfold check_clean, stuck_bad; cbn [a_buf a_hdr];
+        vm_compute spec_adu_ascii; cbn [app]; rewrite find_colon_head; cbn [skipn];
+        reflexivity. }
+    rewrite E.
+    destruct (IHk {| a_buf := stuck_bad ++ t ++ spec_adu KAscii stuck_good; a_hdr := {| a_lrc := Some 252; a_len := 9; a_uid := 1 |} |}) as (I1 & I2).
+    - now left.
+    - eexists. reflexivity.
+    - destruct (feed _ _ _) as [[s2 d2] ok2]. cbn [fst snd] in *. subst d2. split; reflexivity. }
+  cbn [feed].
+  assert (E0 : a_recv base lrc ascii stuck_dec stuck_cfg (a_init ascii) stuck_bad =
+               ({| a_buf := stuck_bad; a_hdr := {| a_lrc := Some 252; a_len := 9; a_uid := 1 |} |}, [], Exc StructError)) by (vm_compute; reflexivity).
+  rewrite E0.
+  destruct (G n {| a_buf := stuck_bad; a_hdr := {| a_lrc := Some 252; a_len := 9; a_uid := 1 |} |}) as (I1 & I2).
+  - now left.
+  - exists []. now rewrite app_nil_r.
+  - destruct (feed _ _ _) as [[s2 d2] ok2]. cbn [fst snd] in *. subst d2. reflexivity.
+Qed.
+
+Theorem ascii_handler_resync dec c st chunk st' ds e :
+  a_recv_h base lrc ascii dec c st chunk = (st', ds, Exc e) -> a_sync st'.
+Proof.
+  unfold a_recv_h. destruct (a_recv base lrc ascii dec c st chunk) as [[s1 d1] [| |]]; intros H; try discriminate.
+  injection H as <- _ _. split; reflexivity.
+Qed.
+
+(* ---- C07 gate: whenever checkFrame accepts — from ANY state — the buffer holds a span
+   ':' hex… CR LF whose LRC matches, and what is then delivered are the bytes of that span ---- *)
+Lemma find_sub_prefix p l i : find_sub p l = Some i -> prefix_eqb p (skipn i l) = true.
+Proof.
+  revert i. induction l as [|x l IH]; intros i H; [discriminate|].
+  cbn [find_sub] in H. destruct (prefix_eqb p (x :: l)) eqn:E.
+  - injection H as <-. exact E.
+  - destruct (find_sub p l) as [j|]; [|discriminate]. injection H as <-. cbn [skipn]. apply IH. reflexivity.
+Qed.
+
+Lemma split_last2 (H : bytes) : (2 <= length H)%nat -> exists D c1 c2, H = D ++ [c1; c2].
+Proof.
+  intros HL. exists (firstn (length H - 2) H).
+  pose proof (firstn_skipn (length H - 2) H) as E.
+  assert (L : length (skipn (length H - 2) H) = 2%nat) by (rewrite skipn_length; lia).
+  destruct (skipn (length H - 2) H) as [|c1 [|c2 [|c3 t]]]; cbn in L; try lia.
+  exists c1, c2. now rewrite E.
+Qed.
+
+Lemma a2b_pair c1 c2 l : a2b_hex [c1; c2] = Ok l -> exists ck, l = [ck] /\ (ck < 256)%N.
+Proof.
+  cbn [a2b_hex]. destruct (hexval c1) as [x|] eqn:E1; [|discriminate]. destruct (hexval c2) as [y|] eqn:E2; [|discriminate].
+  cbn [bind]. intros H. injection H as <-. eexists. split; [reflexivity|].
+  assert (0 <= x < 16 /\ 0 <= y < 16).
+  { unfold hexval in E1, E2.
+    repeat match goal with H : (if ?c then _ else _) = Some _ |- _ => destruct c eqn:?; [injection H as <-|] end;
+    try discriminate; lia. }
+  destruct x; lia.
+Qed.
+
+Definition ascii_span (buf : bytes) (uid : Z) (lrcv : Z) (data : bytes) (D : bytes) (c1 c2 : N) (rest : bytes) : Prop :=
+  buf = COLON :: (D ++ [c1; c2]) ++ CR :: LF :: rest /\
+  a2b_hex D = Ok data /\ (exists ck, a2b_hex [c1; c2] = Ok [ck] /\ Z.of_N ck = lrcv /\ lrcv = spec_lrc data) /\
+  int_hex2 (firstn 2 ((D ++ [c1; c2]) ++ CR :: LF :: rest)) = Ok uid.
+
+Theorem ascii_check_gate st st1 :
+  check_clean st = (st1, true) ->
+  exists pre D c1 c2 rest data,
+    a_buf st = pre ++ a_buf st1 /\
+    ascii_span (a_buf st1) (a_uid (a_hdr st1)) (match a_lrc (a_hdr st1) with Some v => v | None => -1 end) data D c1 c2 rest /\
+    a_len (a_hdr st1) = Z.of_nat (S (length D + 2)).
+Proof.
+  unfold check_clean. intros H.
+  destruct (find_sub [COLON] (a_buf st)) as [s|] eqn:Es; [|discriminate].
+  pose proof (find_sub_prefix _ _ _ Es) as Ps.
+  destruct (find_sub [CR; LF] (skipn s (a_buf st))) as [e|] eqn:Ee; [|discriminate].
+  pose proof (find_sub_prefix _ _ _ Ee) as Pe.
+  remember (skipn s (a_buf st)) as buf1 eqn:Hb1.
+  destruct buf1 as [|c0 t]; [discriminate|]. cbn [prefix_eqb] in Ps. rewrite andb_true_r in Ps. apply N.eqb_eq in Ps. subst c0.
+  destruct e as [|e'].
+  { cbn [skipn prefix_eqb] in Pe. discriminate. }
+  cbn [skipn] in Pe.
+  destruct (skipn e' t) as [|x1 [|x2 rest]] eqn:Hsk; try discriminate.
+  { cbn [prefix_eqb] in Pe. rewrite andb_false_r in Pe. discriminate. }
+  cbn [prefix_eqb] in Pe. rewrite andb_true_r in Pe. apply andb_true_iff in Pe as [P1 P2].
+  apply N.eqb_eq in P1, P2. subst x1 x2.
+  assert (Ht : t = firstn e' t ++ CR :: LF :: rest) by (rewrite <- Hsk; symmetry; apply firstn_skipn).
+  assert (He' : length (firstn e' t) = e').
+  { apply firstn_length_le. pose proof (find_sub_le _ _ _ Ee) as Hle. cbn [length] in Hle.
+    assert (length (skipn e' t) = (length t - e')%nat) by apply skipn_length. rewrite Hsk in H0. cbn [length] in H0. lia. }
+  remember (firstn e' t) as Hh eqn:HeqHh. clear HeqHh Hsk. subst t.
+  destruct (Nat.lt_ge_cases (length Hh) 2) as [Hshort|Hlong].
+  - exfalso.
+    destruct Hh as [|h1 [|h2 Hh']]; cbn [length] in *; try lia; subst e'; cbn [app] in H.
+    + unfold try_clean in H. vm_compute (int_hex2 _) in H. discriminate.
+    + unfold try_clean in H. rewrite (pyslice_nn _ 1 3) in H by lia.
+      change (Z.to_nat 3 - Z.to_nat 1)%nat with 2%nat in H. change (Z.to_nat 1) with 1%nat in H. cbn [skipn firstn] in H.
+      destruct (int_hex2 [h1; CR]); [|discriminate].
+      rewrite (pyslice_nn _ (Z.of_nat 2 - 2) (Z.of_nat 2)) in H by lia.
+      change (Z.to_nat (Z.of_nat 2) - Z.to_nat (Z.of_nat 2 - 2))%nat with 2%nat in H.
+      change (Z.to_nat (Z.of_nat 2 - 2)) with 0%nat in H. cbn [skipn firstn] in H.
+      cbn [a2b_hex] in H. change (hexval COLON) with (@None Z) in H. discriminate.
+  - destruct (split_last2 Hh Hlong) as (D & c1 & c2 & HD).
+    subst Hh.
+    assert (Hlen : S e' = S (length (D ++ [c1; c2]))) by lia.
+    rewrite Hlen in H.
+    rewrite (try_struct D c1 c2 rest) in H.
+    destruct (int_hex2 (firstn 2 ((D ++ [c1; c2]) ++ CR :: LF :: rest))) as [uid|] eqn:Eu; [|discriminate].
+    destruct (a2b_hex [c1; c2]) as [l|] eqn:El; [|discriminate].
+    destruct (a2b_pair _ _ _ El) as (ck & -> & Hck).
+    destruct (a2b_hex D) as [data|] eqn:Ed; [|discriminate].
+    cbn [a_lrc a_len a_uid] in H. injection H as <- Hchk.
+    exists (firstn s (a_buf st)), D, c1, c2, rest, data. cbn [a_buf a_hdr a_uid a_lrc a_len].
+    split; [rewrite Hb1; symmetry; apply firstn_skipn|]. split.
+    + unfold ascii_span. split; [reflexivity|].
+      split; [exact Ed|]. split; [|exact Eu].
+      exists ck. split; [exact El|]. cbn [be_value length] in *.
+      apply Z.eqb_eq in Hchk. split; lia.
+    + rewrite app_length. cbn [length]. lia.
+Qed.
